@@ -630,7 +630,7 @@ def jobs(tier, seed):
                               255, 256, 257, n - 3, n - 2, n - 1}
                   if 126 <= p < n)
     for bg in bgs:
-      if thorough:
+      if thorough and n <= 256:
         cubes.append((n, late[-10:], bg))
         if len(late) > 10:
           cubes.append((n, late[:10], bg))
@@ -640,7 +640,8 @@ def jobs(tier, seed):
                                                    n - 1)][:6], bg))
   for i, (n, pos, bg) in enumerate(cubes):
     out.append(Job('cube_n%d_%s_%d' % (n, bg, i), variants_cube,
-                   dict(n=n, positions=pos, bg_kind=bg), timeout=1200,
+                   dict(n=n, positions=pos, bg_kind=bg),
+                   timeout=3000 if thorough else 1200,
                    cost=n / 16.0))
   out.append(Job('counts', counts, dict(nmax=8 if not thorough else 10),
                  timeout=3000, cost=30))
